@@ -45,6 +45,28 @@ end
 
 def JWF (j : JVal) : Bool := JMapsOK j && JLeavesOK j
 
+mutual
+/-- Representation of a nil `*map[string]any` / `**map[string]any`: the node of a nil pointer is a nil map
+(`mapNil = true`; with `JMapsOK`, without entries). Needed where the repaired inspector goes on past a nil
+pointer (Set). -/
+def JNilPtrsOK : JVal → Bool
+  | .map _ nilAt mapNil _ vs => (nilAt == 0 || mapNil) && JNilPtrsOKs vs
+  | _ => true
+def JNilPtrsOKs : List JVal → Bool
+  | [] => true
+  | v :: vs => JNilPtrsOK v && JNilPtrsOKs vs
+end
+
+mutual
+/-- A nil pointer to a map somewhere in the tree. -/
+def jHasNilMap : JVal → Bool
+  | .map _ n _ _ vs => n != 0 || jHasNilMapList vs
+  | _ => false
+def jHasNilMapList : List JVal → Bool
+  | [] => false
+  | v :: vs => jHasNilMap v || jHasNilMapList vs
+end
+
 /-! ### Association lists -/
 
 theorem lookup_mem_pred (P : JVal → Bool) (Ps : List JVal → Bool)
@@ -68,6 +90,17 @@ theorem lookup_JMapsOK (ks : List Bytes) (vs : List JVal) (k : Bytes) (x : JVal)
 theorem lookup_JLeavesOK (ks : List Bytes) (vs : List JVal) (k : Bytes) (x : JVal)
     (h : JVal.lookup ks vs k = some x) (hp : JLeavesOKs vs = true) : JLeavesOK x = true :=
   lookup_mem_pred JLeavesOK JLeavesOKs (by simp [JLeavesOKs]) (by intro v vs; simp [JLeavesOKs]) ks vs k x h hp
+
+/-- Along the path, the node of a nil pointer to a map is a nil map (what Set needs of `JNilPtrsOK`). -/
+def pathNilOK : JVal → List Bytes → Bool
+  | _, [] => true
+  | .map _ nilAt mapNil ks vs, k :: rest =>
+    (nilAt == 0 || mapNil) && (match JVal.lookup ks vs k with | some x => pathNilOK x rest | none => true)
+  | _, _ :: _ => true
+
+theorem lookup_JNilPtrsOK (ks : List Bytes) (vs : List JVal) (k : Bytes) (x : JVal)
+    (h : JVal.lookup ks vs k = some x) (hp : JNilPtrsOKs vs = true) : JNilPtrsOK x = true :=
+  lookup_mem_pred JNilPtrsOK JNilPtrsOKs (by simp [JNilPtrsOKs]) (by intro v vs; simp [JNilPtrsOKs]) ks vs k x h hp
 
 theorem JMapsOK_map (h n : Nat) (mn : Bool) (ks : List Bytes) (vs : List JVal) (hw : JMapsOK (.map h n mn ks vs) = true) :
     ks.length = vs.length ∧ keysNodup ks = true ∧ (mn = true → ks = []) ∧ JMapsOKs vs = true := by
@@ -177,9 +210,30 @@ end
 
 /-! ### Navigation: the model's descent is the spec's `jnav` -/
 
-theorem samapGet_eq_jnav : ∀ (p : List Bytes) (j : JVal),
-    samapGet j p = (match jnav j p with
+/-- With the nil-pointer switch on, Get is the spec's navigation (`.unspec` is the panic). -/
+theorem samapGet_eq_jnav (cfg : LibCfg) (hc : cfg.samapNilPtrPanics = true) : ∀ (p : List Bytes) (j : JVal),
+    samapGet cfg j p = (match jnav j p with
       | .found x => .node x | .absent => .none | .nonMap => .unsupported | .unspec => .panic)
+  | [], j => by simp [samapGet, jnav]
+  | k :: rest, j => by
+    cases j with
+    | map h n mn ks vs =>
+      simp only [samapGet, jnav, hc, Bool.and_true]
+      by_cases hn : (n != 0) = true
+      · simp only [hn, if_true]
+      · simp only [hn, if_false, Bool.false_eq_true]
+        cases hl : JVal.lookup ks vs k with
+        | none => rfl
+        | some x => exact samapGet_eq_jnav cfg hc rest x
+    | _ => simp [samapGet, jnav]
+
+/-- Whatever the switch: off the nil pointers, Get is the spec's navigation. -/
+theorem samapGet_jnav (cfg : LibCfg) : ∀ (p : List Bytes) (j : JVal),
+    (match jnav j p with
+      | .found x => samapGet cfg j p = .node x
+      | .absent => samapGet cfg j p = .none
+      | .nonMap => samapGet cfg j p = .unsupported
+      | .unspec => True)
   | [], j => by simp [samapGet, jnav]
   | k :: rest, j => by
     cases j with
@@ -187,11 +241,24 @@ theorem samapGet_eq_jnav : ∀ (p : List Bytes) (j : JVal),
       simp only [samapGet, jnav]
       by_cases hn : (n != 0) = true
       · simp only [hn, if_true]
-      · simp only [hn, if_false, Bool.false_eq_true]
+      · simp only [hn, if_false, Bool.false_eq_true, Bool.false_and]
         cases hl : JVal.lookup ks vs k with
         | none => rfl
-        | some x => exact samapGet_eq_jnav rest x
+        | some x => exact samapGet_jnav cfg rest x
     | _ => simp [samapGet, jnav]
+
+/-- C02: with the switch off Get never panics. -/
+theorem samapGet_no_panic (cfg : LibCfg) (hc : cfg.samapNilPtrPanics = false) : ∀ (p : List Bytes) (j : JVal),
+    samapGet cfg j p ≠ .panic
+  | [], j => by simp [samapGet]
+  | k :: rest, j => by
+    cases j with
+    | map h n mn ks vs =>
+      simp only [samapGet, hc, Bool.and_false, Bool.false_eq_true, if_false]
+      cases hl : JVal.lookup ks vs k with
+      | none => simp
+      | some x => exact samapGet_no_panic cfg hc rest x
+    | _ => simp [samapGet]
 
 theorem jnav_found_pred (P : JVal → Bool) (Ps : List JVal → Bool)
     (hnil : Ps [] = true) (hcons : ∀ v vs, Ps (v :: vs) = (P v && Ps vs))
@@ -328,8 +395,8 @@ theorem lcAccepts_step (isCap : Bool) (h n : Nat) (mn : Bool) (ks : List Bytes) 
   unfold samapLcAccepts
   simp only [jnav, hn, hl, Bool.false_eq_true, if_false]
 
-theorem samapLen_ok : ∀ (p : List Bytes) (j : JVal), JLeavesOK j = true →
-    samapLcAccepts false j p (samapLen j p) = true
+theorem samapLen_ok (cfg : LibCfg) : ∀ (p : List Bytes) (j : JVal), JLeavesOK j = true →
+    samapLcAccepts false j p (samapLen cfg j p) = true
   | [], j, hw => by
     unfold samapLcAccepts samapLen
     simp only [jnav]
@@ -357,18 +424,18 @@ theorem samapLen_ok : ∀ (p : List Bytes) (j : JVal), JLeavesOK j = true →
           simp [jnav, hn, hl]
         | some x =>
           rw [lcAccepts_step false h n mn ks vs k rest x _ hn hl]
-          have : samapLen (.map h n mn ks vs) (k :: rest) = samapLen x rest := by
-            simp only [samapLen, hn, hl, Bool.false_eq_true, if_false]
+          have : samapLen cfg (.map h n mn ks vs) (k :: rest) = samapLen cfg x rest := by
+            simp only [samapLen, hn, hl, Bool.false_eq_true, if_false, Bool.false_and]
           rw [this]
-          exact samapLen_ok rest x (lookup_JLeavesOK ks vs k x hl (by simpa [JLeavesOK] using hw))
+          exact samapLen_ok cfg rest x (lookup_JLeavesOK ks vs k x hl (by simpa [JLeavesOK] using hw))
       · unfold samapLcAccepts
         simp [jnav, hn]
     | leaf s => unfold samapLcAccepts samapLen; simp [jnav]
     | nil => unfold samapLcAccepts samapLen; simp [jnav]
     | other => unfold samapLcAccepts samapLen; simp [jnav]
 
-theorem samapCap_ok : ∀ (p : List Bytes) (j : JVal), JLeavesOK j = true →
-    samapLcAccepts true j p (samapCap LibCfg.fixed j p) = true
+theorem samapCap_ok (cfg : LibCfg) (hc : cfg.samapCapIsLen = false) : ∀ (p : List Bytes) (j : JVal), JLeavesOK j = true →
+    samapLcAccepts true j p (samapCap cfg j p) = true
   | [], j, hw => by
     unfold samapLcAccepts samapCap
     simp only [jnav]
@@ -392,20 +459,109 @@ theorem samapCap_ok : ∀ (p : List Bytes) (j : JVal), JLeavesOK j = true →
           simp [jnav, hn, hl]
         | some x =>
           rw [lcAccepts_step true h n mn ks vs k rest x _ hn hl]
-          have : samapCap LibCfg.fixed (.map h n mn ks vs) (k :: rest) = samapCap LibCfg.fixed x rest := by
-            simp only [samapCap, hn, hl, Bool.false_eq_true, if_false, LibCfg.fixed]
+          have : samapCap cfg (.map h n mn ks vs) (k :: rest) = samapCap cfg x rest := by
+            simp only [samapCap, hn, hl, Bool.false_eq_true, if_false, hc, Bool.false_and]
           rw [this]
-          exact samapCap_ok rest x (lookup_JLeavesOK ks vs k x hl (by simpa [JLeavesOK] using hw))
+          exact samapCap_ok cfg hc rest x (lookup_JLeavesOK ks vs k x hl (by simpa [JLeavesOK] using hw))
       · unfold samapLcAccepts
         simp [jnav, hn]
     | leaf s => unfold samapLcAccepts samapCap; simp [jnav]
     | nil => unfold samapLcAccepts samapCap; simp [jnav]
     | other => unfold samapLcAccepts samapCap; simp [jnav]
 
+/-- Length reads the nil-pointer switch only; Capacity that one and `samapCapIsLen`. -/
+theorem samapLen_congr (c1 c2 : LibCfg) (h : c1.samapNilPtrPanics = c2.samapNilPtrPanics) :
+    ∀ (p : List Bytes) (j : JVal), samapLen c1 j p = samapLen c2 j p
+  | [], j => by cases j <;> simp only [samapLen, h]
+  | k :: rest, j => by
+    cases j with
+    | map hold n mn ks vs =>
+      simp only [samapLen, h]
+      split
+      · rfl
+      · cases JVal.lookup ks vs k with
+        | none => rfl
+        | some x => exact samapLen_congr c1 c2 h rest x
+    | _ => simp only [samapLen]
+
+theorem samapCap_congr (c1 c2 : LibCfg) (h : c1.samapNilPtrPanics = c2.samapNilPtrPanics)
+    (hl : c1.samapCapIsLen = c2.samapCapIsLen) : ∀ (p : List Bytes) (j : JVal), samapCap c1 j p = samapCap c2 j p
+  | [], j => by cases j <;> simp only [samapCap, h]
+  | k :: rest, j => by
+    cases j with
+    | map hold n mn ks vs =>
+      simp only [samapCap, h, hl]
+      split
+      · rfl
+      · cases JVal.lookup ks vs k with
+        | none => rfl
+        | some x =>
+          simp only []
+          split
+          · exact samapLen_congr c1 c2 h rest x
+          · exact samapCap_congr c1 c2 h hl rest x
+    | _ => simp only [samapCap]
+
+/-- C02: with the switch off Length never panics. -/
+theorem samapLen_no_panic (cfg : LibCfg) (hc : cfg.samapNilPtrPanics = false) : ∀ (p : List Bytes) (j : JVal),
+    samapLen cfg j p ≠ .panic
+  | [], j => by
+    cases j with
+    | map h n mn ks vs => simp [samapLen, hc]
+    | leaf s =>
+      simp only [samapLen, hc]
+      split
+      · cases hv : s.v <;> simp
+      · simp
+    | nil => simp [samapLen]
+    | other => simp [samapLen]
+  | k :: rest, j => by
+    cases j with
+    | map h n mn ks vs =>
+      simp only [samapLen, hc, Bool.and_false, Bool.false_eq_true, if_false]
+      cases hl : JVal.lookup ks vs k with
+      | none => simp
+      | some x => exact samapLen_no_panic cfg hc rest x
+    | _ => simp [samapLen]
+
+/-- C02: with the switch off Capacity never panics (whether or not it descends into Length). -/
+theorem samapCap_no_panic (cfg : LibCfg) (hc : cfg.samapNilPtrPanics = false) : ∀ (p : List Bytes) (j : JVal),
+    samapCap cfg j p ≠ .panic
+  | [], j => by
+    cases j with
+    | map h n mn ks vs => simp [samapCap]
+    | leaf s =>
+      simp only [samapCap, hc]
+      split
+      · cases hv : s.v <;> simp
+      · simp
+    | nil => simp [samapCap]
+    | other => simp [samapCap]
+  | k :: rest, j => by
+    cases j with
+    | map h n mn ks vs =>
+      simp only [samapCap, hc, Bool.and_false, Bool.false_eq_true, if_false]
+      cases hl : JVal.lookup ks vs k with
+      | none => simp
+      | some x =>
+        simp only []
+        split
+        · exact samapLen_no_panic cfg hc rest x
+        · exact samapCap_no_panic cfg hc rest x
+    | _ => simp [samapCap]
+
 /-! ### Compare -/
 
-theorem samapCmp_ok (op : Op) (right : Seg) : ∀ (p : List Bytes) (j : JVal), JMapsOK j = true →
-    samapCmpAccepts j p op right (samapCmp LibCfg.fixed j p op right) = true
+/-- The leaf comparison reads one switch only. -/
+theorem staticCmp_congr (cfg : LibCfg) (hs : cfg.staticNilPtrPanics = false) (s : Src) (op : Op) (right : Seg) :
+    staticCmp cfg s op right = staticCmp LibCfg.fixed s op right := by
+  have hf : LibCfg.fixed.staticNilPtrPanics = false := rfl
+  unfold staticCmp
+  rw [hs, hf]
+
+theorem samapCmp_ok (cfg : LibCfg) (hs : cfg.staticNilPtrPanics = false) (op : Op) (right : Seg) :
+    ∀ (p : List Bytes) (j : JVal), JMapsOK j = true →
+    samapCmpAccepts j p op right (samapCmp cfg j p op right) = true
   | [], j, _ => by simp [samapCmpAccepts]
   | k :: rest, j, hw => by
     cases j with
@@ -419,17 +575,19 @@ theorem samapCmp_ok (op : Op) (right : Seg) : ∀ (p : List Bytes) (j : JVal), J
           | some x =>
             cases rest with
             | nil =>
-              simp only [samapCmpAccepts, samapCmp, jnav, hn, hl, Bool.false_eq_true, if_false, List.isEmpty_nil, if_true]
+              simp only [samapCmpAccepts, samapCmp, jnav, hn, hl, Bool.false_eq_true, if_false, List.isEmpty_nil, if_true,
+                Bool.false_and]
               cases x with
-              | leaf s => simp [staticCmp_correct]
+              | leaf s => simp [staticCmp_congr cfg hs, staticCmp_correct]
               | map _ _ _ _ _ => simp
               | nil => simp
               | other => simp
             | cons k2 r2 =>
-              have ih := samapCmp_ok op right (k2 :: r2) x (lookup_JMapsOK ks vs k x hl hvs)
-              have e1 : samapCmp LibCfg.fixed (.map h n false ks vs) (k :: k2 :: r2) op right
-                  = samapCmp LibCfg.fixed x (k2 :: r2) op right := by
-                simp only [samapCmp, hn, hl, Bool.false_eq_true, if_false, List.isEmpty_cons]
+              have ih := samapCmp_ok cfg hs op right (k2 :: r2) x (lookup_JMapsOK ks vs k x hl hvs)
+              have e1 : samapCmp cfg (.map h n false ks vs) (k :: k2 :: r2) op right
+                  = samapCmp cfg x (k2 :: r2) op right := by
+                rw [samapCmp]
+                simp only [hn, hl, Bool.false_eq_true, if_false, List.isEmpty_cons, Bool.false_and]
               rw [e1]
               simp only [samapCmpAccepts] at ih ⊢
               have e2 : jnav (.map h n false ks vs) (k :: k2 :: r2) = jnav x (k2 :: r2) := by
@@ -444,16 +602,60 @@ theorem samapCmp_ok (op : Op) (right : Seg) : ∀ (p : List Bytes) (j : JVal), J
     | nil => simp [samapCmpAccepts, samapCmp, jnav]
     | other => simp [samapCmpAccepts, samapCmp, jnav]
 
+theorem staticCmp_no_panic (cfg : LibCfg) (hs : cfg.staticNilPtrPanics = false) (s : Src) (op : Op) (right : Seg) :
+    staticCmp cfg s op right ≠ .panic := by
+  rw [staticCmp_congr cfg hs]
+  unfold staticCmp
+  simp only [LibCfg.fixed]
+  by_cases hf : s.kind = .foreign
+  · simp [hf]
+  · by_cases hn : s.v.isNilPtr = true
+    · simp [hf, hn]
+    · simp only [hn]
+      cases s.kind.family
+      all_goals simp only []
+      all_goals (repeat' split)
+      all_goals simp
+
+/-- C02: with the nil-pointer switches off Compare never panics. -/
+theorem samapCmp_no_panic (cfg : LibCfg) (hc : cfg.samapNilPtrPanics = false) (hs : cfg.staticNilPtrPanics = false)
+    (op : Op) (right : Seg) : ∀ (p : List Bytes) (j : JVal), (samapCmp cfg j p op right).1 ≠ .panic
+  | [], j => by simp [samapCmp]
+  | k :: rest, j => by
+    cases j with
+    | map h n mn ks vs =>
+      rw [samapCmp]
+      simp only [hc, Bool.and_false, Bool.false_eq_true, if_false]
+      cases mn
+      · simp only [Bool.false_eq_true, if_false]
+        cases hl : JVal.lookup ks vs k with
+        | none => simp
+        | some x =>
+          simp only []
+          split
+          · cases x with
+            | leaf s => exact staticCmp_no_panic cfg hs s op right
+            | map _ _ _ _ _ => simp
+            | nil => simp
+            | other => simp
+          · exact samapCmp_no_panic cfg hc hs op right rest x
+      · simp
+    | _ => simp [samapCmp]
+
 /-! ### Copy -/
 
+/- Copy, for either position of the nil-pointer switch. With the switch on a nil pointer to a map makes Copy
+fail (`none`), so a successful Copy has met none; with the switch off (`hnm`) the statement is about trees without
+a nil pointer to a map: such a pointer is copied as a pointer to an empty map, which `jeq` tells apart. -/
 mutual
-theorem samapCpy_ok : ∀ (j c : JVal) (s : Nat), JMapsOK j = true → samapCpy j = some (c, s) →
+theorem samapCpy_ok (cfg : LibCfg) : ∀ (j c : JVal) (s : Nat), JMapsOK j = true →
+    (cfg.samapNilPtrPanics = true ∨ jHasNilMap j = false) → samapCpy cfg j = some (c, s) →
     jeq j c = true ∧ s = ptrLeafCount j
-  | .nil, c, s, _, h => by
+  | .nil, c, s, _, _, h => by
     simp [samapCpy] at h; obtain ⟨h1, h2⟩ := h; subst h1 h2; simp [jeq, ptrLeafCount]
-  | .other, c, s, _, h => by
+  | .other, c, s, _, _, h => by
     simp [samapCpy] at h; obtain ⟨h1, h2⟩ := h; subst h1 h2; simp [jeq, ptrLeafCount]
-  | .leaf src, c, s, _, h => by
+  | .leaf src, c, s, _, _, h => by
     simp only [samapCpy] at h
     cases hf : (src.kind.family == Family.text)
     · simp only [hf, Bool.false_eq_true, if_false] at h
@@ -465,56 +667,216 @@ theorem samapCpy_ok : ∀ (j c : JVal) (s : Nat), JMapsOK j = true → samapCpy 
       have hf' : (src.kind.family != Family.text) = false := by simp [bne, hf]
       cases hv : src.v <;> simp only [hv] at h <;>
         first
-        | (cases h; done)
         | (injection h with h; injection h with h1 h2; subst h1 h2
            simp [jeq, srcEq, valContentEq_refl, ptrLeafCount, hf']
            rw [hv]; exact valContentEq_refl _)
-  | .map hold n mn ks vs, c, s, hw, h => by
+        | (cases hc : cfg.samapNilPtrPanics
+           · simp only [hc, Bool.false_eq_true, if_false] at h
+             injection h with h; injection h with h1 h2; subst h1 h2
+             simp [jeq, srcEq_refl, ptrLeafCount, hf']
+           · simp [hc] at h)
+  | .map hold n mn ks vs, c, s, hw, hnm, h => by
     obtain ⟨hl, hnd, _, hvs⟩ := JMapsOK_map hold n mn ks vs hw
     simp only [samapCpy] at h
     cases hn : (n != 0)
-    · simp only [hn, Bool.false_eq_true, if_false] at h
-      cases hc : samapCpyList vs with
+    · simp only [hn, Bool.false_eq_true, if_false, Bool.false_and] at h
+      have hnm' : cfg.samapNilPtrPanics = true ∨ jHasNilMapList vs = false := by
+        rcases hnm with h1 | h1
+        · exact Or.inl h1
+        · right; simp only [jHasNilMap, Bool.or_eq_false_iff] at h1; exact h1.2
+      cases hc : samapCpyList cfg vs with
       | none => simp [hc] at h
       | some r =>
         obtain ⟨vs', s'⟩ := r
         simp only [hc] at h
         injection h with h; injection h with h1 h2
         subst h1 h2
-        obtain ⟨hlen, hpw, hs⟩ := samapCpyList_ok vs vs' s' hvs hc
+        obtain ⟨hlen, hpw, hs⟩ := samapCpyList_ok cfg vs vs' s' hvs hnm' hc
         have hn0 : n = 0 := by simpa using hn
         subst hn0
         refine ⟨?_, by simpa [ptrLeafCount] using hs⟩
         simp only [jeq, beq_self_eq_true, Bool.true_and]
         exact jeqEntries_pointwise ks vs vs' [] [] rfl hnd hlen hpw
-    · simp [hn] at h
-theorem samapCpyList_ok : ∀ (vs cs : List JVal) (s : Nat), JMapsOKs vs = true → samapCpyList vs = some (cs, s) →
+    · rcases hnm with h1 | h1
+      · simp [hn, h1] at h
+      · simp [jHasNilMap, hn] at h1
+theorem samapCpyList_ok (cfg : LibCfg) : ∀ (vs cs : List JVal) (s : Nat), JMapsOKs vs = true →
+    (cfg.samapNilPtrPanics = true ∨ jHasNilMapList vs = false) → samapCpyList cfg vs = some (cs, s) →
     vs.length = cs.length ∧ (∀ (i : Nat) (a b : JVal), vs[i]? = some a → cs[i]? = some b → jeq a b = true) ∧
     s = ptrLeafCountList vs
-  | [], cs, s, _, h => by
+  | [], cs, s, _, _, h => by
     simp [samapCpyList] at h; obtain ⟨h1, h2⟩ := h; subst h1 h2
     simp [ptrLeafCountList]
-  | v :: rest, cs, s, hw, h => by
+  | v :: rest, cs, s, hw, hnm, h => by
     simp only [JMapsOKs, Bool.and_eq_true] at hw
     simp only [samapCpyList] at h
-    cases h1 : samapCpy v with
+    have hnm1 : cfg.samapNilPtrPanics = true ∨ jHasNilMap v = false := by
+      rcases hnm with h1 | h1
+      · exact Or.inl h1
+      · right; simp only [jHasNilMapList, Bool.or_eq_false_iff] at h1; exact h1.1
+    have hnm2 : cfg.samapNilPtrPanics = true ∨ jHasNilMapList rest = false := by
+      rcases hnm with h1 | h1
+      · exact Or.inl h1
+      · right; simp only [jHasNilMapList, Bool.or_eq_false_iff] at h1; exact h1.2
+    cases h1 : samapCpy cfg v with
     | none => simp [h1] at h
     | some r1 =>
       obtain ⟨v', s1⟩ := r1
-      cases h2 : samapCpyList rest with
+      cases h2 : samapCpyList cfg rest with
       | none => simp [h1, h2] at h
       | some r2 =>
         obtain ⟨rest', s2⟩ := r2
         simp only [h1, h2] at h
         injection h with h; injection h with e1 e2
         subst e1 e2
-        obtain ⟨hj, hs1⟩ := samapCpy_ok v v' s1 hw.1 h1
-        obtain ⟨hlen, hpw, hs2⟩ := samapCpyList_ok rest rest' s2 hw.2 h2
+        obtain ⟨hj, hs1⟩ := samapCpy_ok cfg v v' s1 hw.1 hnm1 h1
+        obtain ⟨hlen, hpw, hs2⟩ := samapCpyList_ok cfg rest rest' s2 hw.2 hnm2 h2
         refine ⟨by simp [hlen], ?_, by simp [ptrLeafCountList, hs1, hs2]⟩
         intro i a b ha hb
         cases i with
         | zero => simp at ha hb; subst ha hb; exact hj
         | succ i => exact hpw i a b (by simpa using ha) (by simpa using hb)
+end
+
+/-! ### Copy, nil pointers to maps included -/
+
+theorem jCopyNormList_length : ∀ (vs : List JVal), (jCopyNormList vs).length = vs.length
+  | [] => rfl
+  | v :: vs => by simp [jCopyNormList, jCopyNormList_length vs]
+
+theorem jCopyNormList_get : ∀ (vs : List JVal) (i : Nat) (a : JVal), (jCopyNormList vs)[i]? = some a →
+    ∃ a0, vs[i]? = some a0 ∧ a = jCopyNorm a0
+  | [], i, a, h => by simp [jCopyNormList] at h
+  | v :: vs, 0, a, h => by
+    simp only [jCopyNormList, List.getElem?_cons_zero] at h
+    injection h with h
+    exact ⟨v, rfl, h.symm⟩
+  | v :: vs, i + 1, a, h => by
+    simp only [jCopyNormList, List.getElem?_cons_succ] at h
+    simpa using jCopyNormList_get vs i a h
+
+/- The copy is the source up to `jCopyNorm`. `hnp`: either Copy stops (panics) at a nil pointer to a map, or the
+node of such a pointer is a nil map (`JNilPtrsOK`; with `JMapsOK`, without entries). -/
+mutual
+theorem samapCpy_norm (cfg : LibCfg) : ∀ (j c : JVal) (s : Nat), JMapsOK j = true →
+    (cfg.samapNilPtrPanics = true ∨ JNilPtrsOK j = true) → samapCpy cfg j = some (c, s) →
+    jeq (jCopyNorm j) c = true ∧ s = ptrLeafCount j
+  | .nil, c, s, hw, _, h => by
+    have := samapCpy_ok cfg .nil c s hw (Or.inr rfl) h
+    simpa [jCopyNorm] using this
+  | .other, c, s, hw, _, h => by
+    have := samapCpy_ok cfg .other c s hw (Or.inr rfl) h
+    simpa [jCopyNorm] using this
+  | .leaf src, c, s, hw, _, h => by
+    have := samapCpy_ok cfg (.leaf src) c s hw (Or.inr rfl) h
+    simpa [jCopyNorm] using this
+  | .map hold n mn ks vs, c, s, hw, hnp, h => by
+    obtain ⟨hl, hnd, hmn, hvs⟩ := JMapsOK_map hold n mn ks vs hw
+    simp only [samapCpy] at h
+    by_cases hpan : (n != 0 && cfg.samapNilPtrPanics) = true
+    · simp [hpan] at h
+    simp only [hpan, if_false] at h
+    cases hn : (n != 0)
+    · have hn0 : n = 0 := by simpa using hn
+      subst hn0
+      have hnp' : cfg.samapNilPtrPanics = true ∨ JNilPtrsOKs vs = true := by
+        rcases hnp with h1 | h1
+        · exact Or.inl h1
+        · right; simp only [JNilPtrsOK, Bool.and_eq_true] at h1; exact h1.2
+      cases hc : samapCpyList cfg vs with
+      | none => simp [hc] at h
+      | some r =>
+        obtain ⟨vs', s'⟩ := r
+        simp only [hc] at h
+        injection h with h; injection h with h1 h2
+        subst h1 h2
+        obtain ⟨hlen, hpw, hs⟩ := samapCpyList_norm cfg vs vs' s' hvs hnp' hc
+        refine ⟨?_, by simpa [ptrLeafCount] using hs⟩
+        simp only [jCopyNorm, bne_self_eq_false, Bool.false_eq_true, if_false, jeq, beq_self_eq_true, Bool.true_and]
+        refine jeqEntries_pointwise ks (jCopyNormList vs) vs' [] [] rfl hnd
+          (by rw [jCopyNormList_length]; exact hlen) ?_
+        intro i a b ha hb
+        obtain ⟨a0, ha0, e⟩ := jCopyNormList_get vs i a ha
+        subst e
+        exact hpw i a0 b ha0 hb
+    · -- repaired: a nil pointer to a map, represented as a nil map without entries
+      have hoff : cfg.samapNilPtrPanics = false := by
+        cases hc : cfg.samapNilPtrPanics
+        · rfl
+        · simp [hn, hc] at hpan
+      have hmn' : mn = true := by
+        rcases hnp with h1 | h1
+        · rw [hoff] at h1; cases h1
+        · simp only [JNilPtrsOK, Bool.and_eq_true, Bool.or_eq_true, beq_iff_eq] at h1
+          rcases h1.1 with h2 | h2
+          · subst h2; simp at hn
+          · exact h2
+      have hk := hmn hmn'
+      subst hk
+      have hv : vs = [] := by
+        cases vs with
+        | nil => rfl
+        | cons _ _ => simp at hl
+      subst hv
+      simp only [samapCpyList] at h
+      injection h with h; injection h with h1 h2
+      subst h1 h2
+      simp [jCopyNorm, hn, jeq, jeqEntries, ptrLeafCount, ptrLeafCountList]
+theorem samapCpyList_norm (cfg : LibCfg) : ∀ (vs cs : List JVal) (s : Nat), JMapsOKs vs = true →
+    (cfg.samapNilPtrPanics = true ∨ JNilPtrsOKs vs = true) → samapCpyList cfg vs = some (cs, s) →
+    vs.length = cs.length ∧
+    (∀ (i : Nat) (a b : JVal), vs[i]? = some a → cs[i]? = some b → jeq (jCopyNorm a) b = true) ∧
+    s = ptrLeafCountList vs
+  | [], cs, s, _, _, h => by
+    simp [samapCpyList] at h; obtain ⟨h1, h2⟩ := h; subst h1 h2
+    simp [ptrLeafCountList]
+  | v :: rest, cs, s, hw, hnp, h => by
+    simp only [JMapsOKs, Bool.and_eq_true] at hw
+    simp only [samapCpyList] at h
+    have hnp1 : cfg.samapNilPtrPanics = true ∨ JNilPtrsOK v = true := by
+      rcases hnp with h1 | h1
+      · exact Or.inl h1
+      · right; simp only [JNilPtrsOKs, Bool.and_eq_true] at h1; exact h1.1
+    have hnp2 : cfg.samapNilPtrPanics = true ∨ JNilPtrsOKs rest = true := by
+      rcases hnp with h1 | h1
+      · exact Or.inl h1
+      · right; simp only [JNilPtrsOKs, Bool.and_eq_true] at h1; exact h1.2
+    cases h1 : samapCpy cfg v with
+    | none => simp [h1] at h
+    | some r1 =>
+      obtain ⟨v', s1⟩ := r1
+      cases h2 : samapCpyList cfg rest with
+      | none => simp [h1, h2] at h
+      | some r2 =>
+        obtain ⟨rest', s2⟩ := r2
+        simp only [h1, h2] at h
+        injection h with h; injection h with e1 e2
+        subst e1 e2
+        obtain ⟨hj, hs1⟩ := samapCpy_norm cfg v v' s1 hw.1 hnp1 h1
+        obtain ⟨hlen, hpw, hs2⟩ := samapCpyList_norm cfg rest rest' s2 hw.2 hnp2 h2
+        refine ⟨by simp [hlen], ?_, by simp [ptrLeafCountList, hs1, hs2]⟩
+        intro i a b ha hb
+        cases i with
+        | zero => simp at ha hb; subst ha hb; exact hj
+        | succ i => exact hpw i a b (by simpa using ha) (by simpa using hb)
+end
+
+/- Without a nil pointer to a map the source is compared as it is. -/
+mutual
+theorem jCopyNorm_id : ∀ (j : JVal), jHasNilMap j = false → jCopyNorm j = j
+  | .nil, _ => rfl
+  | .other, _ => rfl
+  | .leaf _, _ => rfl
+  | .map hold n mn ks vs, h => by
+    simp only [jHasNilMap, Bool.or_eq_false_iff] at h
+    have hn0 : n = 0 := by simpa using h.1
+    subst hn0
+    simp only [jCopyNorm, bne_self_eq_false, Bool.false_eq_true, if_false, jCopyNormList_id vs h.2]
+theorem jCopyNormList_id : ∀ (vs : List JVal), jHasNilMapList vs = false → jCopyNormList vs = vs
+  | [], _ => rfl
+  | v :: rest, h => by
+    simp only [jHasNilMapList, Bool.or_eq_false_iff] at h
+    simp only [jCopyNormList, jCopyNorm_id v h.1, jCopyNormList_id rest h.2]
 end
 
 /-! ### Set -/
@@ -647,18 +1009,47 @@ theorem frame_step (h : Nat) (mn : Bool) (ks : List Bytes) (vs : List JVal) (k :
     · subst h; simp
     · simp [lookup_isSome_of_mem ks vs ak hl h]
 
-theorem samapLeafOf_leaf (src : Src) (x : JVal) (h : samapLeafOf src = some x) : ∃ s, x = .leaf s := by
+theorem samapLeafOf_leaf (cfg : LibCfg) (src : Src) (x : JVal) (h : samapLeafOf cfg src = some x) : ∃ s, x = .leaf s := by
   unfold samapLeafOf at h
   split at h
-  · cases hv : src.v <;> rw [hv] at h <;> simp at h <;> exact ⟨_, h.symm⟩
+  · cases hv : src.v <;> rw [hv] at h <;> simp at h <;> first | exact ⟨_, h.symm⟩ | exact ⟨_, h.2.symm⟩
   · injection h with h; exact ⟨_, h.symm⟩
 
-theorem samapLeafOf_none (src : Src) (h : samapLeafOf src = none) : src.v.isNilPtr = true := by
+theorem samapLeafOf_none (cfg : LibCfg) (src : Src) (h : samapLeafOf cfg src = none) :
+    src.v.isNilPtr = true ∧ cfg.samapNilPtrPanics = true := by
   unfold samapLeafOf at h
   split at h
   · cases hv : src.v <;> rw [hv] at h <;> simp at h
-    rfl
+    exact ⟨rfl, h⟩
   · cases h
+
+/-- With the switch off every value can be stored. -/
+theorem samapLeafOf_isSome (cfg : LibCfg) (hc : cfg.samapNilPtrPanics = false) (src : Src) :
+    ∃ x, samapLeafOf cfg src = some x := by
+  cases h : samapLeafOf cfg src with
+  | some x => exact ⟨x, rfl⟩
+  | none => have := (samapLeafOf_none cfg src h).2; rw [hc] at this; cases this
+
+/-- The spec's demand on the stored leaf is what the inspector stored before the nil-pointer repair (`none`: a
+typed-nil `*string` / `*[]byte`, nothing demanded): introducing the switch left the specification as it was. -/
+theorem samapStoredLeaf_eq (src : Src) : samapStoredLeaf src = samapLeafOf LibCfg.original src := by
+  unfold samapStoredLeaf samapLeafOf
+  cases hf : (src.kind.family == Family.text)
+  · simp
+  · cases hv : src.v <;> simp [Val.isNilPtr, LibCfg.original, LibCfg.fixed]
+
+/-- Whatever the switch, a leaf that is stored is the leaf the spec asks for (where it asks for one). -/
+theorem samapLeafOf_stored (cfg : LibCfg) (src : Src) (x y : JVal) (h1 : samapLeafOf cfg src = some x)
+    (h2 : samapStoredLeaf src = some y) : y = x := by
+  unfold samapStoredLeaf at h2
+  unfold samapLeafOf at h1 h2
+  cases hf : (src.kind.family == Family.text)
+  · simp only [hf, Bool.false_eq_true, if_false, Bool.false_and] at h1 h2
+    rw [h1] at h2; injection h2 with h2; exact h2.symm
+  · cases hv : src.v <;> simp only [hf, hv, Val.isNilPtr, Bool.true_and, Bool.and_true, Bool.false_eq_true, if_false, if_true] at h1 h2 <;>
+      first
+      | (cases h2; done)
+      | (rw [h1] at h2; injection h2 with h2; exact h2.symm)
 
 def emptyJMap : JVal := .map 0 0 false [] []
 
@@ -668,37 +1059,76 @@ def setClaim (j : JVal) (p : List Bytes) (src : Src) (o : JSet) : Prop :=
   | .panic => True
   | .ok after =>
     samapFrame j after p (p.length + 1) = true ∧
-    ∀ x, samapLeafOf src = some x →
+    ∀ x, samapStoredLeaf src = some x →
       (match jnav after p with | .found y => jeq x y | _ => passesNilMap j p) = true
   | .unsupported after =>
     samapFrame j after p (p.length + 1) = true ∧ jnav after p = .nonMap
 
-theorem samapSet_claim (src : Src) : ∀ (p : List Bytes) (k : Bytes) (j : JVal), JMapsOK j = true →
-    setClaim j (k :: p) src (samapSet j (k :: p) src)
-  | rest, k, .nil, hw => by simp [samapSet, setClaim, samapFrame, jeq, jnav]
-  | rest, k, .other, hw => by simp [samapSet, setClaim, samapFrame, jeq, jnav]
-  | rest, k, .leaf s, hw => by simp [samapSet, setClaim, samapFrame, jeq, jnav, srcEq_refl]
-  | rest, k, .map hold n mn ks vs, hw => by
+theorem pathNilOK_of_tree : ∀ (p : List Bytes) (j : JVal), JNilPtrsOK j = true → pathNilOK j p = true
+  | [], j, _ => by cases j <;> rfl
+  | k :: rest, j, h => by
+    cases j with
+    | map hold n mn ks vs =>
+      simp only [JNilPtrsOK, Bool.and_eq_true] at h
+      simp only [pathNilOK, Bool.and_eq_true]
+      refine ⟨h.1, ?_⟩
+      cases hl : JVal.lookup ks vs k with
+      | none => rfl
+      | some x => exact pathNilOK_of_tree rest x (lookup_JNilPtrsOK ks vs k x hl h.2)
+    | _ => rfl
+
+theorem pathNilOK_of_nav : ∀ (p : List Bytes) (j : JVal), jnav j p ≠ .unspec → pathNilOK j p = true
+  | [], j, _ => by cases j <;> rfl
+  | k :: rest, j, h => by
+    cases j with
+    | map hold n mn ks vs =>
+      simp only [jnav] at h
+      cases hn : (n != 0)
+      · have hn0 : n = 0 := by simpa using hn
+        subst hn0
+        simp only [hn, Bool.false_eq_true, if_false] at h
+        simp only [pathNilOK, beq_self_eq_true, Bool.true_or, Bool.true_and]
+        cases hl : JVal.lookup ks vs k with
+        | none => rfl
+        | some x => rw [hl] at h; exact pathNilOK_of_nav rest x h
+      · simp [hn] at h
+    | _ => rfl
+
+/-- Either position of the nil-pointer switch. With the switch off Set goes on past a nil pointer to a map, and the
+claim needs the representation invariant `JNilPtrsOK` (the node of a nil pointer is a nil map) along the path. -/
+theorem samapSet_claim (cfg : LibCfg) (src : Src) : ∀ (p : List Bytes) (k : Bytes) (j : JVal), JMapsOK j = true →
+    (cfg.samapNilPtrPanics = true ∨ pathNilOK j (k :: p) = true) →
+    setClaim j (k :: p) src (samapSet cfg j (k :: p) src)
+  | rest, k, .nil, hw, _ => by simp [samapSet, setClaim, samapFrame, jeq, jnav]
+  | rest, k, .other, hw, _ => by simp [samapSet, setClaim, samapFrame, jeq, jnav]
+  | rest, k, .leaf s, hw, _ => by simp [samapSet, setClaim, samapFrame, jeq, jnav, srcEq_refl]
+  | rest, k, .map hold n mn ks vs, hw, hnp => by
     obtain ⟨hl, hnd, hmn, hvs⟩ := JMapsOK_map hold n mn ks vs hw
     simp only [samapSet]
-    by_cases hn' : (n != 0) = true
-    · simp [hn', setClaim]
-    have hn : (n != 0) = false := by simpa using hn'
-    have hn0 : n = 0 := by simpa using hn
-    subst hn0
-    simp only [bne_self_eq_false, Bool.false_eq_true, if_false]
+    by_cases hpan : (n != 0 && cfg.samapNilPtrPanics) = true
+    · simp [hpan, setClaim]
+    simp only [hpan, if_false]
     by_cases hm' : mn = true
-    · -- nil map: nothing can be created
+    · -- nil map (or, repaired, a nil pointer to a map): nothing can be created
       have hk := hmn hm'
       subst hk hm'
-      simp [setClaim, samapFrame, jnav, JVal.lookup, passesNilMap]
+      simp only [if_true, setClaim]
+      refine ⟨by simp [samapFrame], ?_⟩
+      intro x _
+      cases hn : (n != 0) <;> simp [jnav, hn, JVal.lookup, passesNilMap]
     have hm : mn = false := by simpa using hm'
     subst hm
+    have hn0 : n = 0 := by
+      rcases hnp with h1 | h1
+      · simpa [h1] using hpan
+      · simp only [pathNilOK, Bool.and_eq_true, Bool.or_eq_true, Bool.false_eq_true, or_false, beq_iff_eq] at h1
+        exact h1.1
+    subst hn0
     simp only [Bool.false_eq_true, if_false]
     cases rest with
     | nil =>
       simp only [List.isEmpty_nil, if_true]
-      cases hlf : samapLeafOf src with
+      cases hlf : samapLeafOf cfg src with
       | none => simp [setClaim]
       | some x =>
         simp only []
@@ -707,14 +1137,13 @@ theorem samapSet_claim (src : Src) : ∀ (p : List Bytes) (k : Bytes) (j : JVal)
           simp only [setClaim]
           refine ⟨frame_step hold false ks vs k x [] _ ks' vs' hjs hl hnd hvs (fun bv _ => samapFrame_nil _ _ _), ?_⟩
           intro x2 hx2
-          rw [hlf] at hx2
-          injection hx2 with hx2
-          subst hx2
-          have hlk : JVal.lookup ks' vs' k = some x := by
-            have := jsetKey_lookup_same ks vs k x
+          have hx := samapLeafOf_stored cfg src x x2 hlf hx2
+          subst hx
+          have hlk : JVal.lookup ks' vs' k = some x2 := by
+            have := jsetKey_lookup_same ks vs k x2
             rw [hjs] at this; exact this
           simp only [jnav, bne_self_eq_false, Bool.false_eq_true, if_false, hlk]
-          obtain ⟨s', hs'⟩ := samapLeafOf_leaf src x hlf
+          obtain ⟨s', hs'⟩ := samapLeafOf_leaf cfg src x2 hlf
           subst hs'
           simp [jeq, srcEq_refl]
     | cons k2 r2 =>
@@ -723,8 +1152,17 @@ theorem samapSet_claim (src : Src) : ∀ (p : List Bytes) (k : Bytes) (j : JVal)
         cases hlk : JVal.lookup ks vs k with
         | none => rfl
         | some y => exact lookup_JMapsOK ks vs k y hlk hvs
-      have ih := samapSet_claim src r2 k2 ((JVal.lookup ks vs k).getD (.map 0 0 false [] [])) hx0
-      cases hres : samapSet ((JVal.lookup ks vs k).getD (.map 0 0 false [] [])) (k2 :: r2) src with
+      have hx1 : cfg.samapNilPtrPanics = true ∨
+          pathNilOK ((JVal.lookup ks vs k).getD (.map 0 0 false [] [])) (k2 :: r2) = true := by
+        rcases hnp with h1 | h1
+        · exact Or.inl h1
+        · right
+          simp only [pathNilOK, Bool.and_eq_true] at h1
+          cases hlk : JVal.lookup ks vs k with
+          | none => simp [pathNilOK, JVal.lookup]
+          | some y => have := h1.2; rw [hlk] at this; exact this
+      have ih := samapSet_claim cfg src r2 k2 ((JVal.lookup ks vs k).getD (.map 0 0 false [] [])) hx0 hx1
+      cases hres : samapSet cfg ((JVal.lookup ks vs k).getD (.map 0 0 false [] [])) (k2 :: r2) src with
       | panic => simp [setClaim]
       | ok x' =>
         rw [hres] at ih
@@ -770,19 +1208,19 @@ theorem samapSet_claim (src : Src) : ∀ (p : List Bytes) (k : Bytes) (j : JVal)
           · simp only [jnav, bne_self_eq_false, Bool.false_eq_true, if_false, hlk']
             exact ihs
 
-/-- Set panics only for a nil pointer as the value or a nil pointer to a map on the way. -/
-theorem samapSet_panic (src : Src) : ∀ (p : List Bytes) (j : JVal), samapSet j p src = .panic →
-    src.v.isNilPtr = true ∨ jnav j p = .unspec
+/-- Set panics only for a nil pointer as the value or a nil pointer to a map on the way — and only with the switch on. -/
+theorem samapSet_panic (cfg : LibCfg) (src : Src) : ∀ (p : List Bytes) (j : JVal), samapSet cfg j p src = .panic →
+    cfg.samapNilPtrPanics = true ∧ (src.v.isNilPtr = true ∨ jnav j p = .unspec)
   | [], j, h => by simp [samapSet] at h
   | k :: rest, .nil, h => by simp [samapSet] at h
   | k :: rest, .other, h => by simp [samapSet] at h
   | k :: rest, .leaf _, h => by simp [samapSet] at h
   | k :: rest, .map hold n mn ks vs, h => by
     simp only [samapSet] at h
-    by_cases hn' : (n != 0) = true
-    · right; simp [jnav, hn']
-    have hn : (n != 0) = false := by simpa using hn'
-    simp only [hn, Bool.false_eq_true, if_false] at h
+    by_cases hpan : (n != 0 && cfg.samapNilPtrPanics) = true
+    · simp only [Bool.and_eq_true] at hpan
+      exact ⟨hpan.2, Or.inr (by simp [jnav, hpan.1])⟩
+    simp only [hpan, if_false] at h
     by_cases hm' : mn = true
     · simp [hm'] at h
     have hm : mn = false := by simpa using hm'
@@ -790,21 +1228,31 @@ theorem samapSet_panic (src : Src) : ∀ (p : List Bytes) (j : JVal), samapSet j
     cases rest with
     | nil =>
       simp only [List.isEmpty_nil, if_true] at h
-      cases hlf : samapLeafOf src with
-      | none => left; exact samapLeafOf_none src hlf
+      cases hlf : samapLeafOf cfg src with
+      | none => exact ⟨(samapLeafOf_none cfg src hlf).2, Or.inl (samapLeafOf_none cfg src hlf).1⟩
       | some x => simp [hlf] at h
     | cons k2 r2 =>
       simp only [List.isEmpty_cons, Bool.false_eq_true, if_false] at h
-      cases hres : samapSet ((JVal.lookup ks vs k).getD (.map 0 0 false [] [])) (k2 :: r2) src with
+      cases hres : samapSet cfg ((JVal.lookup ks vs k).getD (.map 0 0 false [] [])) (k2 :: r2) src with
       | ok x' => simp [hres] at h
       | unsupported x' => simp [hres] at h
       | panic =>
-        rcases samapSet_panic src (k2 :: r2) _ hres with h1 | h1
+        obtain ⟨hc, h1⟩ := samapSet_panic cfg src (k2 :: r2) _ hres
+        refine ⟨hc, ?_⟩
+        have hn : (n != 0) = false := by simpa [hc] using hpan
+        rcases h1 with h1 | h1
         · exact Or.inl h1
         · right
           cases hlk : JVal.lookup ks vs k with
           | none => rw [hlk] at h1; simp [jnav, JVal.lookup] at h1
           | some y => rw [hlk] at h1; simpa [jnav, hn, hlk] using h1
+
+/-- C02: with the switch off Set never panics. -/
+theorem samapSet_no_panic (cfg : LibCfg) (hc : cfg.samapNilPtrPanics = false) (src : Src) (p : List Bytes) (j : JVal) :
+    samapSet cfg j p src ≠ .panic := by
+  intro h
+  have := (samapSet_panic cfg src p j h).1
+  rw [hc] at this; cases this
 
 /-! ### Copy fails only on a nil pointer in the tree -/
 
@@ -820,7 +1268,8 @@ def jHasNilList : List JVal → Bool
 end
 
 mutual
-theorem samapCpy_none : ∀ (j : JVal), samapCpy j = none → jHasNil j = true
+theorem samapCpy_none (cfg : LibCfg) : ∀ (j : JVal), samapCpy cfg j = none →
+    cfg.samapNilPtrPanics = true ∧ jHasNil j = true
   | .nil, h => by simp [samapCpy] at h
   | .other, h => by simp [samapCpy] at h
   | .leaf src, h => by
@@ -829,25 +1278,62 @@ theorem samapCpy_none : ∀ (j : JVal), samapCpy j = none → jHasNil j = true
     · simp [hf] at h
     · simp only [hf, if_true] at h
       cases hv : src.v <;> simp [hv] at h
-      simp [jHasNil, hf, hv, Val.isNilPtr]
+      exact ⟨h, by simp [jHasNil, hf, hv, Val.isNilPtr]⟩
   | .map hold n mn ks vs, h => by
     simp only [samapCpy] at h
-    cases hn : (n != 0)
-    · simp only [hn, Bool.false_eq_true, if_false] at h
-      cases hc : samapCpyList vs with
-      | none => simp [jHasNil, samapCpyList_none vs hc]
+    by_cases hpan : (n != 0 && cfg.samapNilPtrPanics) = true
+    · simp only [Bool.and_eq_true] at hpan
+      exact ⟨hpan.2, by simp [jHasNil, hpan.1]⟩
+    · simp only [hpan, if_false] at h
+      cases hc : samapCpyList cfg vs with
+      | none =>
+        obtain ⟨h1, h2⟩ := samapCpyList_none cfg vs hc
+        exact ⟨h1, by simp [jHasNil, h2]⟩
       | some r => simp [hc] at h
-    · simp [jHasNil, hn]
-theorem samapCpyList_none : ∀ (vs : List JVal), samapCpyList vs = none → jHasNilList vs = true
+theorem samapCpyList_none (cfg : LibCfg) : ∀ (vs : List JVal), samapCpyList cfg vs = none →
+    cfg.samapNilPtrPanics = true ∧ jHasNilList vs = true
   | [], h => by simp [samapCpyList] at h
   | v :: rest, h => by
     simp only [samapCpyList] at h
-    cases h1 : samapCpy v with
-    | none => simp [jHasNilList, samapCpy_none v h1]
+    cases h1 : samapCpy cfg v with
+    | none =>
+      obtain ⟨e1, e2⟩ := samapCpy_none cfg v h1
+      exact ⟨e1, by simp [jHasNilList, e2]⟩
     | some r1 =>
-      cases h2 : samapCpyList rest with
-      | none => simp [jHasNilList, samapCpyList_none rest h2]
+      cases h2 : samapCpyList cfg rest with
+      | none =>
+        obtain ⟨e1, e2⟩ := samapCpyList_none cfg rest h2
+        exact ⟨e1, by simp [jHasNilList, e2]⟩
       | some r2 => simp [h1, h2] at h
+end
+
+/-- C02: with the switch off Copy never panics. -/
+theorem samapCpy_no_panic (cfg : LibCfg) (hc : cfg.samapNilPtrPanics = false) (j : JVal) :
+    (samapCpy cfg j).isSome = true := by
+  cases h : samapCpy cfg j with
+  | some r => rfl
+  | none => have := (samapCpy_none cfg j h).1; rw [hc] at this; cases this
+
+/- A nil pointer to a map is one of the nil pointers. -/
+mutual
+theorem jHasNil_of_nilMap : ∀ (j : JVal), jHasNilMap j = true → jHasNil j = true
+  | .nil, h => by simp [jHasNilMap] at h
+  | .other, h => by simp [jHasNilMap] at h
+  | .leaf _, h => by simp [jHasNilMap] at h
+  | .map _ n _ _ vs, h => by
+    simp only [jHasNilMap, Bool.or_eq_true] at h
+    simp only [jHasNil, Bool.or_eq_true]
+    rcases h with h | h
+    · exact Or.inl h
+    · exact Or.inr (jHasNilList_of_nilMap vs h)
+theorem jHasNilList_of_nilMap : ∀ (vs : List JVal), jHasNilMapList vs = true → jHasNilList vs = true
+  | [], h => by simp [jHasNilMapList] at h
+  | v :: rest, h => by
+    simp only [jHasNilMapList, Bool.or_eq_true] at h
+    simp only [jHasNilList, Bool.or_eq_true]
+    rcases h with h | h
+    · exact Or.inl (jHasNil_of_nilMap v h)
+    · exact Or.inr (jHasNilList_of_nilMap rest h)
 end
 
 end Inspector.C18
